@@ -11,6 +11,7 @@ import (
 
 	"github.com/smart-core-os/sc-api/go/traits"
 	"github.com/smart-core-os/sc-api/go/types"
+	"github.com/smart-core-os/sc-golang/pkg/masks"
 	"github.com/smart-core-os/sc-golang/pkg/resource"
 )
 
@@ -81,7 +82,8 @@ func (m *ModelServer) ListHails(_ context.Context, request *traits.ListHailsRequ
 	lastKey := pageToken.GetLastResourceName() // the key() of the last item we sent
 	pageSize := capPageSize(int(request.GetPageSize()))
 
-	sortedItems := m.model.ListHails(resource.WithReadMask(request.ReadMask))
+	// page over the unfiltered listing: the read mask may leave out the field the page token is made of
+	sortedItems := m.model.ListHails()
 	nextIndex := 0
 	if lastKey != "" {
 		nextIndex = sort.Search(len(sortedItems), func(i int) bool {
@@ -108,6 +110,13 @@ func (m *ModelServer) ListHails(_ context.Context, request *traits.ListHailsRequ
 		return nil, err
 	}
 	result.Hails = sortedItems[nextIndex:upperBound]
+
+	// apply read mask
+	mask := masks.NewResponseFilter(masks.WithFieldMask(request.ReadMask))
+	for i, item := range result.Hails {
+		result.Hails[i] = mask.FilterClone(item).(*traits.Hail)
+	}
+
 	return result, nil
 }
 
